@@ -16,7 +16,7 @@ if ! git apply $S/patch.diff 2>/tmp/vs/$name.apply.err; then
   cd /; git -C /repo worktree remove --force $W; exit 0
 fi
 cp $S/demo_test.go $pkg/zz_seed_demo_test.go
-demo_with=$(go test -vet=off -count=1 -run 'TestSeedDemo' ./$pkg/ 2>&1 | grep -E "^(ok|FAIL|---)" | tr '\n' ' ')
+demo_with=$(go test -vet=off -count=1 -run 'TestSeedDemo|TestZZSeed' ./$pkg/ 2>&1 | grep -E "^(ok|FAIL|---)" | tr '\n' ' ')
 suites=""
 if [ "$SUITES" = "1" ]; then
   rm $pkg/zz_seed_demo_test.go
@@ -24,7 +24,7 @@ if [ "$SUITES" = "1" ]; then
   cp $S/demo_test.go $pkg/zz_seed_demo_test.go
 fi
 git apply -R $S/patch.diff
-demo_without=$(go test -vet=off -count=1 -run 'TestSeedDemo' ./$pkg/ 2>&1 | grep -E "^(ok|FAIL|---)" | tr '\n' ' ')
+demo_without=$(go test -vet=off -count=1 -run 'TestSeedDemo|TestZZSeed' ./$pkg/ 2>&1 | grep -E "^(ok|FAIL|---)" | tr '\n' ' ')
 python3 - "$name" "$pkg" "$demo_with" "$demo_without" "$suites" > $S/verify.json <<'PY'
 import json,sys
 n,pkg,dw,dwo,su=sys.argv[1:6]
